@@ -117,3 +117,7 @@ mod tests {
         Ok(())
     }
 }
+
+#[cfg(kani)]
+#[path = "/verif/harness/gtf/attributes_field.rs"]
+mod verif_kani;
